@@ -48,7 +48,7 @@ def run(tier):
         for ci, c in enumerate(cases):
             rank = rng.choice([1, 1, 2, 3, 4])
             pos = rng.randrange(rank)
-            kind = rng.choice(["float", "scaled", "time", "time_s", "time_ms"])
+            kind = rng.choice(["float", "scaled", "int", "time", "time_s", "time_ms"])
             name = "time" if kind.startswith("time") else "x"
             partial = rng.random() < 0.25
             ds, tx, fac, dims, pidx = ic.embed(c, rank, pos, kind, name, rng, partial_nan=partial)
@@ -148,6 +148,39 @@ def run(tier):
                             break
                     if stop:
                         break
+
+        # 2b. multi-coordinate interpolation at points (a track through gridded data): trilinear = composition per coordinate; the keys of
+        # the `points` mapping come in every order (the order of a mapping carries no meaning); nothing is missing in these cases
+        from ocean_science_utilities.interpolate.dataset import interpolate_at_points
+        clean = [c for c in sub if not any(c["nan"])]
+        for c in rng.sample(clean, min(len(clean), 60 if quick else 600)):
+            xg = np.array(c["xp"], dtype="float64") * 0.5
+            lat = np.array([-10.0, 0.0, 10.0, 20.0, 30.0])[:max(len(xg), 2)]
+            base = np.datetime64("2022-05-01T00:00:00", "s")
+            tim = np.array([base + np.timedelta64(3600 * i, "s") for i in range(3)]).astype("datetime64[ns]")
+            F = np.array([float(v) for v in c["f"]])
+            data = F[None, None, :] + 10.0 * lat[None, :, None] + 100.0 * np.arange(3)[:, None, None]
+            ds = xarray.Dataset()
+            ds["u"] = xarray.DataArray(data, dims=["time", "latitude", "x"], coords={"time": tim, "latitude": lat, "x": xg})
+            npts = len(c["x"])
+            plat = np.array([rng.choice([-10.0, -2.5, 0.5 * float(lat[0] + lat[-1]), float(lat[-1])]) for _ in range(npts)])
+            pt = np.array([rng.choice([0.0, 0.25, 1.5, 2.0]) for _ in range(npts)])
+            ptime = np.array([base + np.timedelta64(int(3600 * v), "s") for v in pt]).astype("datetime64[ns]")
+            vals_ = {"time": ptime, "latitude": plat, "x": np.array(c["x"], dtype="float64") * 0.5}
+            order = ["time", "latitude", "x"]
+            rng.shuffle(order)
+            ctx = {"xp": c["xp"], "key_order": order}
+            try:
+                out = interpolate_at_points(ds, {k: vals_[k] for k in order}, independent_variable="time")["u"].values
+            except Exception as e:
+                chk.violation("raise:at_points:%s" % type(e).__name__, "interpolate_at_points raised %s" % type(e).__name__, dict(ctx, error=str(e)[:300]))
+                continue
+            evals += 1
+            for k in range(npts):
+                if not ic.accepts(c["exp"][k], float(out[k]), 1.0, 10.0 * plat[k] + 100.0 * pt[k]):
+                    chk.violation("at_points", "gridded data interpolated at a point is not the composition of the 1-D operator per coordinate",
+                                  dict(ctx, x=float(c["x"][k]) / 2, lat=float(plat[k]), t=float(pt[k]), got=float(out[k]), accepted=c["exp"][k]))
+                    break
 
         # 3. spectra: frequency and time interpolation (1D: energy-weighted moments) --------------------
         asc = [c for c in cases if c["xp"][0] < c["xp"][-1] and c["xp"][0] >= 0]
